@@ -39,6 +39,11 @@ def read_clock(c, who):
 
 
 class ExecModels(Models):
+    def const(self, ctx, name):
+        if re.search(r"(?:^|::)Duration::ZERO$", name):
+            return Agg("Duration", None, [mk_int(0, "nat")])
+        return None
+
     def __init__(self, prog):
         super().__init__()
         M = self
